@@ -763,8 +763,11 @@ def check(repo, rep, tier):
   c06.rule_taint(repo, rep, labels=False)
   rule_routing(repo, rep)
   rule_check_preprocessor(repo, rep)
-  rule_data_unchanged(repo, rep)
-  rule_only_for_indicators(repo, rep)
+  # the validator as a decision table (shared with C06): indicators are
+  # formed through the preprocessor, formed data is returned as validated and
+  # the preprocessor is not consulted for it; every other input is rejected
+  from . import c06b
+  c06b.rule_validation_table(repo, rep)
   rule_slot_order(repo, rep)
   rule_indexer_permissive(repo, rep)
   # (error wrapping is decided by R-INTERP:tuple-formation: an exception of
